@@ -75,7 +75,8 @@ S7  == << Page(<<"e">>, 1, 0, 0, <<PRc(0, 5)>>) >>                              
 S8  == << Page(<<"e">>, 1, 0, 0, <<PRc(0, 1)>>), Page(<<"e">>, 2, 0, 10, <<Xc(1), PRc(0, 0), Xc(2)>>) >>           \* other controls around the paging control
 S9  == << Page(<<>>, 1, 0, 32, <<>>) >>
 S10 == << Page(<<"e">>, 1, 0, 0, <<PRc(0, 1)>>), Page(<<"e">>, 2, 0, 32, <<>>) >>                                 \* later page fails
-Specials == {S1, S2, S3, S4, S5, S6, S7, S8, S9, S10}
+S11 == << Page(<<"e">>, 1, 0, 0, <<PRc(0, 1)>>), Page(<<"e">>, 2, 0, 0, <<PRc(0, 0), Xc(1), Xc(2), Xc(3)>>) >>    \* three other controls after the paging control: their order is the server's
+Specials == {S1, S2, S3, S4, S5, S6, S7, S8, S9, S10, S11}
 
 \* ---- request parameters
 ParDefault == [base |-> 1, scope |-> 2, deref |-> 0, sizelimit |-> 0, timelimit |-> 0, typesonly |-> FALSE,
